@@ -22,7 +22,25 @@ struct Named {
 #[compound]
 struct OptW(Option<Pair>, LTerm);
 
+// the same with term fields on both sides of the Option-typed one
+#[compound]
+struct WOpt(LTerm, Option<Pair>, LTerm);
+
 const NONE_MARK: &str = "__harness_none__";
+
+fn opt_field(o: &T) -> Option<Pair<U, E>> {
+    match o.as_ref() {
+        proto_vulcan::lterm::LTermInner::Val(LValue::String(m)) if m == NONE_MARK => None,
+        proto_vulcan::lterm::LTermInner::Compound(obj) => {
+            let kids: Vec<T> = obj.children().map(|k| k.as_term().expect("harness: Opt payload").clone()).collect();
+            if obj.type_name() != "Pair" || kids.len() != 2 {
+                panic!("harness: Opt payload must be a Pair")
+            }
+            Some(Downcast::into_sub(Pair_compound::_InnerPair(kids[0].clone(), kids[1].clone())))
+        }
+        _ => panic!("harness: Opt payload must be a Pair"),
+    }
+}
 
 pub fn build_comp(tag: &str, mut args: Vec<T>) -> T {
     let no_args = args.is_empty();
@@ -80,6 +98,13 @@ pub fn build_comp(tag: &str, mut args: Vec<T>) -> T {
                 _ => panic!("harness: Opt payload must be a Pair"),
             };
             let p: OptW<U, E> = Downcast::into_sub(OptW_compound::_InnerOptW(field, c));
+            Upcast::into_super(p)
+        }
+        "WOpt" => {
+            let a = nx();
+            let o = nx();
+            let c = nx();
+            let p: WOpt<U, E> = Downcast::into_sub(WOpt_compound::_InnerWOpt(a, opt_field(&o), c));
             Upcast::into_super(p)
         }
         _ => panic!("harness: unknown compound {}", tag),
